@@ -351,6 +351,21 @@ def sch_prune(ctx: Ctx) -> RuleResult:
             a = n.args[0]
             if isinstance(a, ast.Call) and dotted(a.func) in ("list", "set", "tuple") and a.args:
                 a = a.args[0]
+            # the same set written as an intersection: ids of the results  &  nodes of the graph (either order)
+            if isinstance(a, ast.BinOp) and isinstance(a.op, ast.BitAnd):
+                def _side(e: ast.AST) -> Optional[str]:
+                    if isinstance(e, ast.Call) and dotted(e.func) in ("set", "frozenset") and len(e.args) == 1:
+                        e = e.args[0]
+                    if isinstance(e, ast.Call) and isinstance(e.func, ast.Attribute) and e.func.attr == "keys" and not e.args:
+                        e = e.func.value
+                    if isinstance(e, ast.Attribute) and e.attr == "nodes":
+                        e = e.value
+                    if isinstance(e, ast.Call) and isinstance(e.func, ast.Attribute) and e.func.attr == "nodes" and not e.args:
+                        e = e.func.value
+                    return dotted(e)
+                if {_side(a.left), _side(a.right)} == {m.G, res}:
+                    prune_i = i
+                    continue
             if isinstance(a, (ast.ListComp, ast.SetComp, ast.GeneratorExp)) and len(a.generators) == 1:
                 gen = a.generators[0]
                 over_g = dotted(gen.iter) == m.G or (isinstance(gen.iter, ast.Attribute) and dotted(gen.iter.value) == m.G
